@@ -236,6 +236,113 @@ def pick_samples(ctx, n=6):
     ctx.samples = [{"id": i, "src": ctx.cases[i]["src"][:160]} for i in ids[:n]]
 
 
+# ----------------------------------------------------------------------------- binding self-test
+
+def _first(recs, pred):
+    for r in recs:
+        if r.get("ok") and not r.get("budget_exceeded") and pred(r):
+            return r
+    return None
+
+
+def _corrupt(prop, recs):
+    """Returns (record, expected clause prefix) with one field of one record falsified, or None."""
+    import copy
+    def tok(r, pred=lambda t: True):
+        for i, t in enumerate(r["toks"][:-1]):
+            if pred(t):
+                return i
+        return None
+    if prop == "C01":
+        r = _first(recs, lambda r: True)
+        if r:
+            r = copy.deepcopy(r); r["errs"].append({"k": "InternalErrorOutOfBounds", "code": 9003, "b": 0, "c": 0, "l": 1, "col": 0, "lt": -1})
+        return r
+    if prop in ("C02", "C03"):
+        r = _first(recs, lambda r: len(r["toks"]) >= 3 and r["toks"][1]["b"] > 0)
+        if r:
+            r = copy.deepcopy(r)
+            if prop == "C02":
+                r["toks"][0]["eb"] += 1      # a gap between the first two tokens
+            else:
+                r["toks"][1]["c"] += 1       # char offset no longer the code-point index of the byte offset
+        return r
+    if prop == "C04":
+        r = _first(recs, lambda r: len(r["toks"]) >= 2)
+        if r:
+            r = copy.deepcopy(r); r["toks"][0]["ecol"] += 1
+        return r
+    if prop == "C05":
+        r = _first(recs, lambda r: len(r["toks"]) >= 2)
+        if r:
+            r = copy.deepcopy(r); r["rtoks"][0]["el"] += 1
+        return r
+    if prop == "C06":
+        r = _first(recs, lambda r: any(t["ty"] == "WS" for t in r["toks"]))
+        if r:
+            r = copy.deepcopy(r); next(t for t in r["toks"] if t["ty"] == "WS")["ty"] = "SEMI"
+        return r
+    if prop == "C07":
+        r = _first(recs, lambda r: any(t["pk"] == "s" and t["pt"] for t in r["toks"]))
+        if r:
+            r = copy.deepcopy(r); t = next(t for t in r["toks"] if t["pk"] == "s" and t["pt"]); t["pt"] = t["pt"][:-1]; t["ptc"] = t["ptc"][:-1]
+        return r
+    if prop == "C08":
+        r = _first(recs, lambda r: any(t["ty"] == "IntegerLiteral" and t["pk"] == "i" for t in r["toks"]) and not r["errs"])
+        if r:
+            r = copy.deepcopy(r); t = next(t for t in r["toks"] if t["ty"] == "IntegerLiteral"); t["pi"] = t["pi"] + [7]
+        return r
+    if prop == "C09":
+        r = _first(recs, lambda r: len(r["errs"]) >= 1)
+        if r:
+            r = copy.deepcopy(r); r["errs"][0]["lt"] = len(r["toks"]) + 5
+        return r
+    if prop == "C10":
+        r = _first(recs, lambda r: any(t["ty"] == "StringExprEnd" for t in r["toks"]))
+        if r:
+            r = copy.deepcopy(r); next(t for t in r["toks"] if t["ty"] == "StringExprEnd")["ty"] = "StringExprText"
+        return r
+    if prop == "C11":
+        r = _first(recs, lambda r: any(t["ty"] == "Identifier" for t in r["toks"]) and "%" not in r["cs"] and "&" not in r["cs"])
+        if r:
+            r = copy.deepcopy(r); next(t for t in r["toks"] if t["ty"] == "Identifier")["ty"] = "KwData"
+        return r
+    if prop == "C12":
+        r = _first(recs, lambda r: True)
+        if r:
+            r = copy.deepcopy(r); r["at_eof"]["nest"] = 1
+        return r
+    if prop == "C13":
+        r = _first(recs, lambda r: any(e["k"] == "tok" for e in r.get("exps", [])))
+        if r:
+            r = copy.deepcopy(r); next(e for e in r["exps"] if e["k"] == "tok")["ty"] = "CatchAll"
+        return r
+    if prop == "C14":
+        r = _first(recs, lambda r: len(r["errs"]) >= 1 and r.get("fault", {}).get("kind") in ("assign", "lparen", "semi", "fslash", "rparen", "comma"))
+        if r:
+            r = copy.deepcopy(r); r["errs"] = []
+        return r
+    return None
+
+
+def self_test(ctx, variant, paths, macro_sep=True):
+    """Binding self-test (DESIGN.md 4.3): one recorded field is falsified; the monitor must notice."""
+    recs = list(common.read_ndjson(paths[0]))
+    bad = _corrupt(ctx.prop, recs)
+    if bad is None:
+        ctx.extra["self_test"] = "not applicable to the records of this run"
+        return
+    bad["id"] = "__selftest__"
+    pth = os.path.join(ctx.dir, "selftest.ndjson")
+    common.write_cases(pth, [bad])
+    mon = common.monitor(ctx.prop, [pth], ctx.dir, workers_each=1, parallel=1, macro_sep=macro_sep)
+    os.remove(pth)
+    hit = [v for v in mon["verdicts"] if v[0] == "__selftest__"]
+    if not hit:
+        raise ToolError("binding self-test: a falsified record was not noticed by the %s monitor" % ctx.prop)
+    ctx.extra["self_test"] = "falsified record rejected by clause %s" % hit[0][1]
+
+
 # ----------------------------------------------------------------------------- generic
 
 GENERIC = {
@@ -285,6 +392,8 @@ def run_generic(ctx):
         judge(ctx, variant, mon)
         log("[%s] %s: %d records monitored in %.1fs, %d verdict lines" % (
             ctx.prop, variant, mon["records"], mon["wall"], len(mon["verdicts"])))
+        if variant == "dbg":
+            self_test(ctx, variant, paths)
     return finish(ctx, "model_checking", RULES["generic"],
                   ["position tables (byte offset, line, column per code point) come from the harness and are "
                    "re-derived locally by the TLA+ predicate CertOK before use",
@@ -839,6 +948,8 @@ def run_gen_prop(ctx):
         judge(ctx, variant, mon)
         log("[%s] %s: %d records monitored in %.1fs, %d verdict lines" % (
             ctx.prop, variant, mon["records"], mon["wall"], len(mon["verdicts"])))
+        if variant == "dbg":
+            self_test(ctx, variant, paths)
     rule = ("programs are derivations of the construct grammar spec/Gen.tla (DESIGN.md 7.6), produced by TLC: random "
             "derivations (-simulate, several fuel bounds) and all derivations with a small fuel bound; each carries the "
             "generator's expectations%s; the real lexer runs on each and TLC evaluates the %s clauses of "
